@@ -12,12 +12,12 @@ import (
 )
 
 type c01Case struct {
-	Mode        string     `json:"mode"` // "propositional" or "quantified"
-	Profile     m.Profile  `json:"profile"`
+	Mode        string      `json:"mode"` // "propositional" or "quantified"
+	Profile     m.Profile   `json:"profile"`
 	Pairs       [][2]string `json:"pairs"` // (validation, its rewritten twin)
-	Graph       *m.Graph   `json:"graph"`
-	ProfileText string     `json:"profile_text"`
-	DataText    string     `json:"data_text"`
+	Graph       *m.Graph    `json:"graph"`
+	ProfileText string      `json:"profile_text"`
+	DataText    string      `json:"data_text"`
 }
 
 // rewrite applies random meaning-preserving steps.
@@ -41,7 +41,7 @@ func rewrite(t *rapid.T, f *m.F, budget *int) *m.F {
 		*budget--
 		switch x.Op {
 		case "and", "or":
-			switch rapid.IntRange(0, 3).Draw(t, "rwAndOr") {
+			switch rapid.IntRange(0, 4).Draw(t, "rwAndOr") {
 			case 0: // permute
 				x.Sub = rapid.Permutation(x.Sub).Draw(t, "perm")
 				return x
@@ -57,6 +57,13 @@ func rewrite(t *rapid.T, f *m.F, budget *int) *m.F {
 				return m.Not(&m.F{Op: other, Sub: neg})
 			case 2: // double negation
 				return m.Not(m.Not(x))
+			case 4: // regroup by associativity: op(a,b,c,d) -> op(op(a,b), op(c,d))
+				if len(x.Sub) >= 3 {
+					k := rapid.IntRange(1, len(x.Sub)-1).Draw(t, "split")
+					left, right := &m.F{Op: x.Op, Sub: append([]*m.F{}, x.Sub[:k]...)}, &m.F{Op: x.Op, Sub: append([]*m.F{}, x.Sub[k:]...)}
+					return &m.F{Op: x.Op, Sub: []*m.F{left, right}}
+				}
+				return x
 			default: // flatten same-op children
 				var flat []*m.F
 				for _, s := range x.Sub {
@@ -117,7 +124,10 @@ func rewrite(t *rapid.T, f *m.F, budget *int) *m.F {
 
 func genC01(t *rapid.T) c01Case {
 	thorough := ev.Thorough()
-	mode := rapid.SampledFrom([]string{"propositional", "quantified", "quantified"}).Draw(t, "mode")
+	mode := rapid.SampledFrom([]string{"propositional", "quantified", "quantified", "wide"}).Draw(t, "mode")
+	if mode == "wide" {
+		return genC01Wide(t)
+	}
 	g := &fgen{t: t, maxAtoms: 4, maxDepth: 4, maxWidth: 3, quant: mode == "quantified", edges: 2, budget: 9}
 	if thorough {
 		g.maxDepth, g.maxWidth, g.maxAtoms, g.budget = 6, 4, 5, 14
@@ -162,6 +172,82 @@ func genC01(t *rapid.T) c01Case {
 	} else {
 		c.Graph = randomGraph(t, g.atoms, edges, 6)
 	}
+	c.ProfileText = c.Profile.ToY().Print(m.YOpts{})
+	c.DataText = c.Graph.JSONLD(m.LDOpts{})
+	return c
+}
+
+// genC01Wide: a wide or/and of conjunctions/disjunctions of several atoms (the shape where the translator builds a
+// cross product of failure branches), decided on every truth assignment, with a regrouped twin.
+func genC01Wide(t *rapid.T) c01Case {
+	g := &fgen{t: t, maxAtoms: 6, maxDepth: 1, maxWidth: 2, budget: 100}
+	if ev.Thorough() {
+		g.maxAtoms = 8
+	}
+	outer := rapid.SampledFrom([]string{"or", "or", "and"}).Draw(t, "outer")
+	inner := "and"
+	if outer == "and" {
+		inner = "or"
+	}
+	k := rapid.IntRange(2, 5).Draw(t, "operands")
+	var subs []*m.F
+	product := 1
+	for i := 0; i < k; i++ {
+		n := rapid.IntRange(1, 3).Draw(t, "groupSize")
+		if product*n > 24 { // the translator emits one rule per element of the cross product
+			n = 1
+		}
+		product *= n
+		var parts []*m.F
+		for j := 0; j < n; j++ {
+			a := m.AtomF(g.atom())
+			if rapid.IntRange(0, 4).Draw(t, "negAtom") == 0 {
+				a = m.Not(a)
+			}
+			parts = append(parts, a)
+		}
+		switch {
+		case n == 1:
+			subs = append(subs, parts[0])
+		case inner == "and" && rapid.Bool().Draw(t, "asMap"):
+			// one propertyConstraints map with several keys = implicit and
+			pc := &m.F{Op: "pc"}
+			ok := true
+			seen := map[string]bool{}
+			for _, p := range parts {
+				if p.Op != "pc" || seen[p.PC[0].Prop] {
+					ok = false
+					break
+				}
+				seen[p.PC[0].Prop] = true
+				pc.PC = append(pc.PC, p.PC...)
+			}
+			if ok {
+				subs = append(subs, pc)
+			} else {
+				subs = append(subs, &m.F{Op: inner, Sub: parts})
+			}
+		default:
+			subs = append(subs, &m.F{Op: inner, Sub: parts})
+		}
+	}
+	f := &m.F{Op: outer, Sub: subs}
+	if rapid.IntRange(0, 3).Draw(t, "negWhole") == 0 {
+		f = m.Not(f)
+	}
+	c := c01Case{Mode: "wide"}
+	c.Profile.Name = "c01w"
+	budget := rapid.IntRange(1, 3).Draw(t, "rwBudget")
+	f2 := rewrite(t, f, &budget)
+	c.Profile.Validations = []m.Validation{
+		{Name: "v0", Level: "violation", Class: "ex.Test", Body: f},
+		{Name: "v0rw", Level: "warning", Class: "ex.Test", Body: f2},
+	}
+	c.Pairs = [][2]string{{"v0", "v0rw"}}
+	for _, v := range c.Profile.Validations {
+		v.Body.MarkPolarity(m.Pos)
+	}
+	c.Graph = propositionalGraph(t, g.atoms)
 	c.ProfileText = c.Profile.ToY().Print(m.YOpts{})
 	c.DataText = c.Graph.JSONLD(m.LDOpts{})
 	return c
